@@ -37,6 +37,10 @@ CHECKS = {
                 technique="bounded model checking in z3 of control-flow automata compiled from the real WorkerPool/Reply methods, schedule = symbolic thread choice per step; counterexamples replayed on the real classes",
                 text="Bounded model checking over all schedules of small scenarios (spawn vs shutdown vs primary thread, results, time-outs, late spawn) for pools with/without primary thread and both thread backends; unwinding assertion and witness per scenario.",
                 note="trusted: the AST->CFA translator (vlib/py2ts.py; validated per run by replaying simulator schedules on the real classes), the hand-written models of Lock/Event/set/list/thread start and of the task bodies, sequential consistency per visible operation, z3; bounds as stated in the evidence"),
+    "C14": dict(cat="model_checking", ref="DESIGN.md §2 E2, §4 C14", engine="E2-py2ts-bmc",
+                technique="bounded model checking in z3 of control-flow automata compiled from the real WorkerGateway._local_schedulexec/executetask/serve and WorkerPool methods over histories of body outcomes; counterexamples replayed on the real classes",
+                text="Bounded model checking over all schedules of receiver and main thread for histories of remote_exec outcomes (sequential and overlapping submission) in main_thread_only mode.",
+                note="trusted: the AST->CFA translator (validated per run against the real classes), the models of Lock/Event/set/list/thread start, the body/Channel.close/loads_internal stubs listed in the evidence, the time rule (a timeout fires only when nothing else can run), z3"),
 }
 
 NOT_APPLICABLE = [
